@@ -49,9 +49,13 @@ CLAIM = dict(
     "AndersonAcceleration on dyadic vectors with a stubbed lstsq vs the model (exact); __call__ outputs with a stubbed _solve vs "
     "callOut (exact / 64 eps); generated program points and as-found witnesses through the driver. ORACLE per run: mass balance to "
     "linear-solver precision, distance == l1_dissipation(returned flux), aux outputs, pinned pressure, converged => criteria met (distance "
-    "increments recomputed from the reported distances; residual / flux increments are read from the history the solver wrote) and no fault.",
-    note="Not tied to a model: that jacobian / residual / _update_regularization assemble the second block row D u - c^T lambda = f (hypothesis "
-    "of newton_preserves_balance; only darcy_init is tied, in C08) - covered by the per-run mass-balance oracle. The model accepts a nan "
+    "increments recomputed from the reported distances; Newton residual || rhs - J(x) x || and flux increment, Bregman mass residual "
+    "recomputed from the iterates captured by pass-through wrappers of jacobian / l1_dissipation; only Bregman's aux/force increment is "
+    "read from the history the solver wrote) and no fault.",
+    note="The hypothesis hupd of newton_preserves_balance is discharged from the model (newton_update_satisfies_hupd, "
+    "newton_model_preserves_balance, mass_row_same_in_every_iterate) and tied: the matrices the live solver assembles in its iterates "
+    "(jacobian / _update_regularization at the first, middle and last captured iterate of every run) equal darcy_init exactly outside the "
+    "diagonal flux-flux block, and darcy_init is tied to the model's assembleFull in C08. The model accepts a nan "
     "event for Newton although Newton has no NaN branch (harmless: theorems quantify over more). 1^T D = 0 is C06. same_iterate compares "
     "iterates to 1e-9 and cannot tell stationary iterates apart (then any of them is the last valid one). After a fault in the bookkeeping "
     "of a pass the convergence_history keeps the entry of the failed pass (not judged). KNOWN FINDINGS: Anderson with a numerically "
@@ -443,6 +447,26 @@ def run_solver(d, cfg, fault=None, num_iter=None):
 
         w._solve = solve
         cap["cost"] = w.l1_dissipation  # the unwrapped method, for the oracle
+        # pass-through recorders (installed before any fault wrapper): the iterate at the start of every Newton pass (argument
+        # of `jacobian`) and the flux whose distance is evaluated (argument of `l1_dissipation`: initial iterate, then one per pass)
+        recd = {"start": [], "flux": []}
+        cap["rec"] = recd
+        if cfg.method == "newton":
+            jac0 = w.jacobian
+            cap["jacobian"] = jac0
+
+            def jac_rec(sol, _j=jac0):
+                recd["start"].append(np.array(sol, dtype=float, copy=True))
+                return _j(sol)
+
+            w.jacobian = jac_rec
+        l10 = w.l1_dissipation
+
+        def l1_rec(flux, _l=l10):
+            recd["flux"].append(np.array(flux, dtype=float, copy=True))
+            return _l(flux)
+
+        w.l1_dissipation = l1_rec
         rec_aa = None
         if w.anderson is not None:
             rec_aa = RecordingAnderson(w.anderson)
@@ -480,7 +504,33 @@ def run_solver(d, cfg, fault=None, num_iter=None):
         return Raised(e)
 
 
-def criteria_met_at(cfg, hist, i):
+def recomputed(cfg, cap):
+    """residual / flux increment (Newton) and mass-conservation residual (Bregman) recomputed from the captured iterates:
+    residual_j = || rhs - J(x_j) x_j ||_2 with x_j the iterate at the start of pass j, flux increment_j = || u_{j+1} - u_j ||_2,
+    mass residual_j = || D u_{j+1} - f ||_2 / || f ||_2"""
+    w, rec = cap["w"], cap.get("rec", {})
+    nf = int(w.grid.num_faces)
+    fm = np.asarray(w.mass_matrix_cells @ cap["mass_diff"], dtype=float)
+    out = {"residual": [], "flux_increment": [], "mass_conservation_residual": []}
+    fluxes = rec.get("flux", [])
+    if cfg.method == "newton":
+        rhs = np.concatenate([np.zeros(nf), fm, [0.0]])
+        for j, x in enumerate(rec.get("start", [])):
+            J = call(cap["jacobian"], x)
+            if isinstance(J, Raised):
+                break
+            out["residual"].append(float(np.linalg.norm(rhs - J @ x)))
+            if j + 1 < len(fluxes):
+                out["flux_increment"].append(float(np.linalg.norm(fluxes[j + 1] - x[:nf])))
+    else:
+        nrm = float(np.linalg.norm(fm))
+        for u in fluxes[1:]:
+            with np.errstate(all="ignore"):
+                out["mass_conservation_residual"].append(float(np.linalg.norm(w.div @ u - fm)) / nrm if nrm else float("nan"))
+    return out
+
+
+def criteria_met_at(cfg, hist, i, rc=None):
     """documented stopping rule evaluated on entry i of the convergence history (pass i)."""
     tr, ti, td = tols(cfg)
     with np.errstate(all="ignore"):
@@ -490,6 +540,17 @@ def criteria_met_at(cfg, hist, i):
             dinc = abs(hist["distance"][i] - hist["distance"][i - 1]) if i >= 1 else hist["distance_increment"][i]
             if i >= 1 and not abs(dinc - hist["distance_increment"][i]) <= 1e-12 * max(abs(hist["distance"][i]), 1e-300):
                 return False  # the stored increment does not belong to the reported distances
+            # residual / flux increment / mass residual: the values recomputed from the captured iterates replace the stored
+            # ones (a stored value that does not belong to the iterates makes the criteria count as not met)
+            h2 = dict(hist)
+            for key in ("residual", "flux_increment", "mass_conservation_residual"):
+                if rc and len(rc.get(key, [])) > i and key in hist and len(hist[key]) > i:
+                    mine, theirs = np.array(rc[key][: i + 1]), np.array(hist[key][: i + 1], dtype=float)
+                    ok_ = np.all(np.abs(mine[[0, i]] - theirs[[0, i]]) <= 1e-7 * np.maximum(np.abs(mine[[0, i]]), 1e-300) + 1e-13)
+                    if not ok_:
+                        return False
+                    h2[key] = list(mine)
+            hist = h2
             if cfg.method == "newton":
                 return bool(hist["residual"][i] < tr * hist["residual"][0] and hist["flux_increment"][i] < ti * hist["flux_increment"][0]
                             and dinc < td)
@@ -512,7 +573,9 @@ def events_of(cfg, cap, fault, num_iter):
         # the history entry of the failing pass was appended before the exception: that pass did not complete
         n_done = fault[1] if cap["warned"] else n_done
     br = lambda i: 0 if cfg.method == "newton" else (0 if is_update_pass(cfg, i) else 1)
-    ev = [("ok1" if criteria_met_at(cfg, hist, i) else "ok0") + f":{br(i)}" for i in range(n_done)]
+    rc = recomputed(cfg, cap) if "w" in cap else None
+    cap["recomputed_lengths"] = {k: len(v) for k, v in (rc or {}).items()}
+    ev = [("ok1" if criteria_met_at(cfg, hist, i, rc) else "ok0") + f":{br(i)}" for i in range(n_done)]
     broke = n_done > 0 and n_done - 1 > 1 and ev[-1].startswith("ok1")
     if not broke and n_done < num_iter:
         if fault is not None and fault[1] == n_done:
@@ -616,6 +679,26 @@ def check_run(ctx, d, cfg, cap, fault, num_iter, label):
         pk = float(abs(p[k]))
         if not pk <= 1e-10 * max(float(np.abs(p).max()), 1e-300) + 1e-300:
             ctx.fail(f"{sig0}:pressure-not-pinned", f"pressure of the reference cell is {p[k]!r}, not 0 ({label})", rp)
+    # (3b) the matrices assembled in the iterates (`jacobian(x)` / `_update_regularization(u)`) differ from `darcy_init` in the
+    # flux-flux block only: the mass-balance row (and every other off-diagonal block) is the same matrix row in every iterate
+    # (mass_row_same_in_every_iterate; darcy_init itself is tied to the model's assembleFull in C08)
+    recd = cap.get("rec", {})
+    pts = recd.get("start", []) if cfg.method == "newton" else recd.get("flux", [])
+    picks = [pts[i] for i in sorted({0, len(pts) // 2, len(pts) - 1})] if pts else []
+    for xi in picks:
+        J = call(cap["jacobian"], xi) if cfg.method == "newton" else call(lambda u_: w._update_regularization(u_)[0], xi)
+        if isinstance(J, Raised):
+            continue
+        J, A0 = J.tocsr(), w.darcy_init.tocsr()
+        same_rows = J.shape == A0.shape and (J[nf:, :] != A0[nf:, :]).nnz == 0 and (J[:nf, nf:] != A0[:nf, nf:]).nnz == 0
+        blk = J[:nf, :nf].tocoo()
+        diag_only = bool(np.all(blk.row == blk.col))
+        ctx.cov["iterate_matrices_checked"] = ctx.cov.get("iterate_matrices_checked", 0) + 1
+        if not (same_rows and diag_only):
+            ctx.fail(f"C04:{cfg.method}.iterate-matrix:differs-from-darcy_init-outside-flux-block",
+                     f"the matrix assembled in an iterate differs from darcy_init outside the (diagonal) flux-flux block: the mass-balance row "
+                     f"is not the same row in every iterate ({label})", rp)
+            break
     # (4) honest status
     met_last = n_done > 0 and ev[n_done - 1].startswith("ok1") and n_done - 1 > 1
     if converged and (faulted or cap["warned"] or not met_last):
